@@ -22,7 +22,6 @@ Proof.
   try (destruct (nsubs nd) as [|r1 [|r2 rs]]; try discriminate H; destruct e; try discriminate H; try discriminate Ha; auto; fail);
   try (destruct pk; try discriminate H; destruct (nsubs nd); try discriminate H; auto; fail);
   try (destruct found; destruct pk; try discriminate H; destruct (nsubs nd); try discriminate H; auto; fail).
-  all: idtac "REM".
   all: destruct (nsubs nd) as [|r1 [|r2 rs]]; try discriminate H; destruct e; try discriminate Ha; simpl in H; try discriminate H.
 Qed.
 Lemma den_node_seq dn nd a b : den_node dn nd (SSeq a b) = true ->
@@ -32,8 +31,7 @@ Proof.
   try (destruct (nsubs nd) as [|r1 [|r2 rs]]; discriminate H);
   try (destruct pk; try discriminate H; destruct (nsubs nd); discriminate H);
   try (destruct found; destruct pk; try discriminate H; destruct (nsubs nd); discriminate H).
-  - apply andb_true_iff in H. destruct H as [H1 H2]. apply Nat.leb_le in H1. auto.
-  - apply andb_true_iff in H. destruct H as [H1 H2]. destruct (nsubs nd) as [|r1 [|r2 rs]]; simpl in H1, H2; discriminate.
+  apply andb_true_iff in H. destruct H as [H1 H2]. apply Nat.leb_le in H1. auto.
 Qed.
 Lemma den_node_sor dn nd a b : den_node dn nd (SSor a b) = true ->
   nhead nd = HSor /\ (2 <= length (nsubs nd))%nat /\ den_sorb dn (nsubs nd) (SSor a b) = true.
@@ -42,8 +40,7 @@ Proof.
   try (destruct (nsubs nd) as [|r1 [|r2 rs]]; discriminate H);
   try (destruct pk; try discriminate H; destruct (nsubs nd); discriminate H);
   try (destruct found; destruct pk; try discriminate H; destruct (nsubs nd); discriminate H).
-  - apply andb_true_iff in H. destruct H as [H1 H2]. destruct (nsubs nd) as [|r1 [|r2 rs]]; simpl in H1, H2; discriminate.
-  - apply andb_true_iff in H. destruct H as [H1 H2]. apply Nat.leb_le in H1. auto.
+  apply andb_true_iff in H. destruct H as [H1 H2]. apply Nat.leb_le in H1. auto.
 Qed.
 Definition un_head (e : sexp) : option (head * sexp) :=
   match e with
@@ -154,6 +151,15 @@ Proof.
   exact (B_atom G attT vtT A fam (nhead nd) e s o r Hden Hp).
 Qed.
 
+Lemma adv_off_same o s : adv_off o s s = o.
+Proof. unfold adv_off. rewrite Nat.sub_diag. simpl. apply N.add_0_r. Qed.
+
+Lemma TBody_star_inv A h rs s o x : TBody G attT vtT A fam h rs s o x -> h = HStarPartial -> TStar G attT vtT A fam rs s o x.
+Proof.
+  intros H Eh. destruct H; try discriminate Eh; try assumption.
+  subst h. match goal with Ha : atom_den HStarPartial _ |- _ => destruct Ha as [_ Hd]; discriminate Hd end.
+Qed.
+
 Theorem conservative A e s o x : PegA g att vt A e s o x -> Q A e s o x.
 Proof.
   induction 1.
@@ -163,7 +169,141 @@ Proof.
   - apply Q_atom; [reflexivity | apply P_range].
   - apply Q_atom; [reflexivity | apply P_string].
   - apply Q_atom; [reflexivity | apply P_eof].
-  - change (Some (s, o, [])) with (ret_atom s o (Some s)) at 1. admit_x.
-  - admit_x.
-Abort.
+  - (* success *) apply mkQ_simple; try reflexivity; try (intros; discriminate).
+    intros n nd Hd. destruct (den_node_atom _ _ SSuccess eq_refl Hd) as [Hs Hden]. rewrite Hs.
+    pose proof (B_atom G attT vtT A fam (nhead nd) SSuccess s o _ Hden (P_success [] s)) as T.
+    unfold tatom in T. rewrite adv_off_same in T. exact T.
+  - (* failure *) apply mkQ_simple; try reflexivity; try (intros; discriminate).
+    intros n nd Hd. destruct (den_node_atom _ _ SFailure eq_refl Hd) as [Hs Hden]. rewrite Hs.
+    exact (B_atom G attT vtT A fam (nhead nd) SFailure s o _ Hden (P_failure [] s)).
+  - (* seq, first ok *)
+    assert (Hseq : forall n r1 r2 rs, den_seqb (dnb n) (r1 :: r2 :: rs) (SSeq a b) = true ->
+              TSeq G attT vtT A fam (r1 :: r2 :: rs) s o
+                (liftT (match r with Some (s2, o2, l2) => Some (s2, o2, l1 ++ l2) | None => None end))).
+    { intros n r1 r2 rs Hd. cbn [den_seqb] in Hd. apply andb_true_iff in Hd. destruct Hd as [Hd1 Hd2].
+      rewrite <- liftT_cat. eapply Ts_ok; [exact (q_node _ _ _ _ _ IHPegA1 n r1 Hd1)|].
+      apply (Q_seq_full _ _ _ _ _ IHPegA2 n); [discriminate | exact Hd2]. }
+    assert (Hb : forall n nd, den_node (dnb n) nd (SSeq a b) = true -> TBody G attT vtT A fam (nhead nd) (nsubs nd) s o
+                (liftT (match r with Some (s2, o2, l2) => Some (s2, o2, l1 ++ l2) | None => None end))).
+    { intros n nd Hd. destruct (den_node_seq _ _ _ _ Hd) as [Hh [Hl Hd2]]. rewrite Hh. apply B_seq.
+      destruct (nsubs nd) as [|r1 [|r2 rs]]; simpl in Hl; try lia. exact (Hseq n r1 r2 rs Hd2). }
+    split; [exact Hb | apply node_of_body; [reflexivity | exact Hb] | exact Hseq | intros n r1 r2 rs Hd; discriminate Hd | intros; discriminate].
+  - (* seq, first fails *)
+    assert (Hseq : forall n r1 r2 rs, den_seqb (dnb n) (r1 :: r2 :: rs) (SSeq a b) = true -> TSeq G attT vtT A fam (r1 :: r2 :: rs) s o (liftT None)).
+    { intros n r1 r2 rs Hd. cbn [den_seqb] in Hd. apply andb_true_iff in Hd. destruct Hd as [Hd1 Hd2].
+      apply Ts_nok; [exact (q_node _ _ _ _ _ IHPegA n r1 Hd1) | exact I]. }
+    assert (Hb : forall n nd, den_node (dnb n) nd (SSeq a b) = true -> TBody G attT vtT A fam (nhead nd) (nsubs nd) s o (liftT None)).
+    { intros n nd Hd. destruct (den_node_seq _ _ _ _ Hd) as [Hh [Hl Hd2]]. rewrite Hh. apply B_seq.
+      destruct (nsubs nd) as [|r1 [|r2 rs]]; simpl in Hl; try lia. exact (Hseq n r1 r2 rs Hd2). }
+    split; [exact Hb | apply node_of_body; [reflexivity | exact Hb] | exact Hseq | intros n r1 r2 rs Hd; discriminate Hd | intros; discriminate].
+  - (* sor, first ok *)
+    assert (Hsor : forall n r1 r2 rs, den_sorb (dnb n) (r1 :: r2 :: rs) (SSor a b) = true -> TSor G attT vtT A fam (r1 :: r2 :: rs) s o (liftT (Some x))).
+    { intros n r1 r2 rs Hd. cbn [den_sorb] in Hd. apply andb_true_iff in Hd. destruct Hd as [Hd1 Hd2].
+      apply To_stop; [exact (q_node _ _ _ _ _ IHPegA n r1 Hd1) | destruct x as [[s2 o2] l2]; discriminate]. }
+    assert (Hb : forall n nd, den_node (dnb n) nd (SSor a b) = true -> TBody G attT vtT A fam (nhead nd) (nsubs nd) s o (liftT (Some x))).
+    { intros n nd Hd. destruct (den_node_sor _ _ _ _ Hd) as [Hh [Hl Hd2]]. rewrite Hh. apply B_sor.
+      destruct (nsubs nd) as [|r1 [|r2 rs]]; simpl in Hl; try lia. exact (Hsor n r1 r2 rs Hd2). }
+    split; [exact Hb | apply node_of_body; [reflexivity | exact Hb] | intros n r1 r2 rs Hd; discriminate Hd | exact Hsor | intros; discriminate].
+  - (* sor, first fails *)
+    assert (Hsor : forall n r1 r2 rs, den_sorb (dnb n) (r1 :: r2 :: rs) (SSor a b) = true -> TSor G attT vtT A fam (r1 :: r2 :: rs) s o (liftT r)).
+    { intros n r1 r2 rs Hd. cbn [den_sorb] in Hd. apply andb_true_iff in Hd. destruct Hd as [Hd1 Hd2].
+      apply To_next; [exact (q_node _ _ _ _ _ IHPegA1 n r1 Hd1)|].
+      apply (Q_sor_full _ _ _ _ _ IHPegA2 n); [discriminate | exact Hd2]. }
+    assert (Hb : forall n nd, den_node (dnb n) nd (SSor a b) = true -> TBody G attT vtT A fam (nhead nd) (nsubs nd) s o (liftT r)).
+    { intros n nd Hd. destruct (den_node_sor _ _ _ _ Hd) as [Hh [Hl Hd2]]. rewrite Hh. apply B_sor.
+      destruct (nsubs nd) as [|r1 [|r2 rs]]; simpl in Hl; try lia. exact (Hsor n r1 r2 rs Hd2). }
+    split; [exact Hb | apply node_of_body; [reflexivity | exact Hb] | intros n r1 r2 rs Hd; discriminate Hd | exact Hsor | intros; discriminate].
+  - (* star, end *)
+    assert (Hst : forall n r1, dnb n r1 e = true -> TStar G attT vtT A fam [r1] s o (liftT (Some (s, o, [])))).
+    { intros n r1 Hd. apply Tt_stop. apply Tp_fail. exact (q_node _ _ _ _ _ IHPegA n r1 Hd). }
+    assert (Hb : forall n nd, den_node (dnb n) nd (SStar e) = true -> TBody G attT vtT A fam (nhead nd) (nsubs nd) s o (liftT (Some (s, o, [])))).
+    { intros n nd Hd. destruct (den_node_un _ _ (SStar e) _ _ eq_refl Hd) as [r1 [Hh [Hs Hd1]]]. rewrite Hh, Hs. apply B_star. exact (Hst n r1 Hd1). }
+    split; [exact Hb | apply node_of_body; [reflexivity | exact Hb] | intros n r1 r2 rs Hd; discriminate Hd | intros n r1 r2 rs Hd; discriminate Hd |].
+    intros e1 E. inversion E; subst e1. exact Hst.
+  - (* star, step *)
+    assert (Hst : forall n r1, dnb n r1 e = true -> TStar G attT vtT A fam [r1] s o
+               (liftT (match r with Some (s2, o2, l2) => Some (s2, o2, l1 ++ l2) | None => None end))).
+    { intros n r1 Hd. rewrite <- liftT_cat. eapply Tt_step.
+      - apply TPar_single_ok. exact (q_node _ _ _ _ _ IHPegA1 n r1 Hd).
+      - exact (q_star _ _ _ _ _ IHPegA2 e eq_refl n r1 Hd). }
+    assert (Hb : forall n nd, den_node (dnb n) nd (SStar e) = true -> TBody G attT vtT A fam (nhead nd) (nsubs nd) s o
+               (liftT (match r with Some (s2, o2, l2) => Some (s2, o2, l1 ++ l2) | None => None end))).
+    { intros n nd Hd. destruct (den_node_un _ _ (SStar e) _ _ eq_refl Hd) as [r1 [Hh [Hs Hd1]]]. rewrite Hh, Hs. apply B_star. exact (Hst n r1 Hd1). }
+    split; [exact Hb | apply node_of_body; [reflexivity | exact Hb] | intros n r1 r2 rs Hd; discriminate Hd | intros n r1 r2 rs Hd; discriminate Hd |].
+    intros e1 E. inversion E; subst e1. exact Hst.
+  - (* plus, fails *) apply mkQ_simple; try reflexivity; try (intros; discriminate).
+    intros n nd Hd. destruct (den_node_un _ _ (SPlus e) _ _ eq_refl Hd) as [r1 [Hh [Hs Hd1]]]. rewrite Hh, Hs.
+    apply B_plus_nok; [exact (q_node _ _ _ _ _ IHPegA n r1 Hd1) | exact I].
+  - (* plus, step *) apply mkQ_simple; try reflexivity; try (intros; discriminate).
+    intros n nd Hd. destruct (den_node_un _ _ (SPlus e) _ _ eq_refl Hd) as [r1 [Hh [Hs Hd1]]]. rewrite Hh, Hs.
+    rewrite <- liftT_cat. eapply B_plus_ok; [exact (q_node _ _ _ _ _ IHPegA1 n r1 Hd1) | exact (q_star _ _ _ _ _ IHPegA2 e eq_refl n r1 Hd1)].
+  - (* opt, ok *) apply mkQ_simple; try reflexivity; try (intros; discriminate).
+    intros n nd Hd. destruct (den_node_un _ _ (SOpt e) _ _ eq_refl Hd) as [r1 [Hh [Hs Hd1]]]. rewrite Hh, Hs.
+    destruct x as [[s1 o1] l1]. eapply B_partial. apply TPar_single_ok. exact (q_node _ _ _ _ _ IHPegA n r1 Hd1).
+  - (* opt, none *) apply mkQ_simple; try reflexivity; try (intros; discriminate).
+    intros n nd Hd. destruct (den_node_un _ _ (SOpt e) _ _ eq_refl Hd) as [r1 [Hh [Hs Hd1]]]. rewrite Hh, Hs.
+    eapply B_partial. apply Tp_fail. exact (q_node _ _ _ _ _ IHPegA n r1 Hd1).
+  - (* at, ok *) apply mkQ_simple; try reflexivity; try (intros; discriminate).
+    intros n nd Hd. destruct (den_node_un _ _ (SAt e) _ _ eq_refl Hd) as [r1 [Hh [Hs Hd1]]]. rewrite Hh, Hs.
+    pose proof (PegA_false_nil _ _ _ _ _ _ _ _ H eq_refl) as Hl. destruct x as [[s1 o1] l1]. simpl in Hl. subst l1.
+    exact (B_at G attT vtT A fam r1 s o _ (q_node _ _ _ _ _ IHPegA n r1 Hd1)).
+  - (* at, fails *) apply mkQ_simple; try reflexivity; try (intros; discriminate).
+    intros n nd Hd. destruct (den_node_un _ _ (SAt e) _ _ eq_refl Hd) as [r1 [Hh [Hs Hd1]]]. rewrite Hh, Hs.
+    exact (B_at G attT vtT A fam r1 s o _ (q_node _ _ _ _ _ IHPegA n r1 Hd1)).
+  - (* not_at, sub ok *) apply mkQ_simple; try reflexivity; try (intros; discriminate).
+    intros n nd Hd. destruct (den_node_un _ _ (SNotAt e) _ _ eq_refl Hd) as [r1 [Hh [Hs Hd1]]]. rewrite Hh, Hs.
+    destruct x as [[s1 o1] l1]. exact (B_not_at G attT vtT A fam r1 s o _ (q_node _ _ _ _ _ IHPegA n r1 Hd1)).
+  - (* not_at, sub fails *) apply mkQ_simple; try reflexivity; try (intros; discriminate).
+    intros n nd Hd. destruct (den_node_un _ _ (SNotAt e) _ _ eq_refl Hd) as [r1 [Hh [Hs Hd1]]]. rewrite Hh, Hs.
+    exact (B_not_at G attT vtT A fam r1 s o _ (q_node _ _ _ _ _ IHPegA n r1 Hd1)).
+  - (* named rule, body ok *)
+    split; [intros n nd Hd; rewrite den_node_ref in Hd; discriminate Hd | | intros n r1 r2 rs Hd; discriminate Hd | intros n r1 r2 rs Hd; discriminate Hd | intros; discriminate].
+    intros n r Hd. destruct n as [|n]; [discriminate Hd|]. cbn [adenb] in Hd. apply andb_true_iff in Hd. destruct Hd as [Hd1 Hd2].
+    apply Nat.eqb_eq in Hd1. subst r. apply Nat.ltb_lt in Hd2.
+    destruct (Hdefs k e H) as [_ [n2 [nd [Hn Hden]]]].
+    pose proof (T_node G attT vtT A fam (nm k) nd s o _ Hn (q_body _ _ _ _ _ IHPegA n2 nd Hden)) as T.
+    replace (liftT (rule_wrap att vt A k o s1 o1 l1)) with (twrap attT vtT A fam (nm k) o (liftT (Some (s1, o1, l1)))); [exact T|].
+    unfold twrap, rule_wrap, liftT. rewrite (Hatt k Hd2), (Hvt k _ _ Hd2). destruct A; [|reflexivity].
+    destruct (att k) as [|sp isb]; [reflexivity|]. destruct (isb && vt k o o1); [reflexivity|].
+    rewrite map_app. reflexivity.
+  - (* named rule, body fails *)
+    split; [intros n nd Hd; rewrite den_node_ref in Hd; discriminate Hd | | intros n r1 r2 rs Hd; discriminate Hd | intros n r1 r2 rs Hd; discriminate Hd | intros; discriminate].
+    intros n r Hd. destruct n as [|n]; [discriminate Hd|]. cbn [adenb] in Hd. apply andb_true_iff in Hd. destruct Hd as [Hd1 Hd2].
+    apply Nat.eqb_eq in Hd1. subst r.
+    destruct (Hdefs k e H) as [_ [n2 [nd [Hn Hden]]]].
+    exact (T_node G attT vtT A fam (nm k) nd s o _ Hn (q_body _ _ _ _ _ IHPegA n2 nd Hden)).
+Qed.
 End Cons.
+
+(* ---------- the statement ---------- *)
+Definition att_agree (G : grammar) (g : sgrammar) (names : list rid) (att : nat -> skind) (vt : nat -> N -> N -> bool)
+  (attT : nat -> rid -> skind) (vtT : nat -> rid -> N -> N -> bool) (fam : nat) : Prop :=
+  (forall r, anon names r = true -> attT fam r = KNone) /\
+  (forall k, (k < length g)%nat -> attT fam (nm_of G names k) = att k) /\
+  (forall k b e, (k < length g)%nat -> vtT fam (nm_of G names k) b e = vt k b e).
+
+Theorem reference_conservative G g names att vt attT vtT fam :
+  att_agree G g names att vt attT vtT fam ->
+  (forall k e, nth_error g k = Some e -> not_ref e = true /\
+      exists n nd, nth_error G (nm_of G names k) = Some nd /\ den_node (adenb G g names n) nd e = true) ->
+  forall A e s o x, PegA g att vt A e s o x ->
+  forall n r, adenb G g names n r e = true -> PegT G attT vtT A fam r s o (liftT G names x).
+Proof.
+  intros [H1 [H2 H3]] Hdefs A e s o x HP n r Hd.
+  pose proof (conservative G g names att vt attT vtT fam H1 H2 H3 Hdefs A e s o x HP) as HQ.
+  destruct HQ as [_ Hnode _ _ _]. exact (Hnode n r Hd).
+Qed.
+
+Corollary reference_conservative_tie G g names att vt attT vtT fam n :
+  att_agree G g names att vt attT vtT fam -> action_tie G g names n = true ->
+  forall k, (k < length g)%nat -> forall A s o x, PegA g att vt A (SRef k) s o x ->
+  PegT G attT vtT A fam (nm_of G names k) s o (liftT G names x).
+Proof.
+  intros Hag Ht k Hk A s o x HP.
+  unfold action_tie in Ht. apply andb_true_iff in Ht. destruct Ht as [_ Ht].
+  assert (Hdefs : forall k e, nth_error g k = Some e ->
+            not_ref e = true /\ exists n nd, nth_error G (nm_of G names k) = Some nd /\ den_node (adenb G g names n) nd e = true).
+  { intros k0 e Hk0. destruct (adefs_ok_nth G g names n g 0 Ht k0 e Hk0) as [A0 [nd [B Cc]]]. split; [exact A0 | exists n, nd; auto]. }
+  apply (reference_conservative G g names att vt attT vtT fam Hag Hdefs A (SRef k) s o x HP 1).
+  cbn [adenb]. rewrite Nat.eqb_refl. apply Nat.ltb_lt in Hk. rewrite Hk. reflexivity.
+Qed.
